@@ -239,7 +239,11 @@ def gen_reactions(rng, n_events, density=0.3, **kw):
 def handshake_variant(rng, sc, p_good=0.8):
     r = rng.random()
     if r < p_good:
-        return sc.good_reply(rng.choice([b'', b'', b'Sec-WebSocket-Protocol: chat\r\n'])), 'good'
+        ext = rng.choice([b'', b'', b'Sec-WebSocket-Protocol: chat\r\n', b'Sec-WebSocket-Extensions: permessage-deflate\r\n',
+                          b'Sec-WebSocket-Extensions: permessage-deflate; client_no_context_takeover\r\n'])
+        if b'deflate' in ext:
+            sc.compress = True
+        return sc.good_reply(ext), 'good'
     if r < p_good + 0.07:
         return b'HTTP/1.1 403 Forbidden\r\nServer: x\r\n\r\n', 'reject'
     if r < p_good + 0.12:
@@ -258,6 +262,7 @@ def gen_history(rng, n_steps=8, timers=False, faults=True, p_good=0.85, reaction
                   ctimeout=(rng.choice([0, 2, 5, 30]) if timers else 30),
                   autopong=rng.random() < 0.85)
     sc.key_seed = key_seed
+    sc.zero = rng.random() < 0.3
     hs, kind = handshake_variant(rng, sc, p_good)
     pieces = [hs]
     for _ in range(n_steps):
